@@ -267,6 +267,47 @@ def run(ctx, R):
             R.sample({"fn": m, "case": case, "guard": repr(G), "written": repr(total), "advance": repr(inc)})
     R.floor("guard/write cases", n_cases, 4)
 
+    # ---- grow: capacity and pointer change only when the allocation succeeded ---------------------------------
+    gr = F.find_impl("InnerHeap", None, "grow")
+    gh = F.hir(gr)
+    commits = []
+
+    def rec_g(n, anc):
+        if isinstance(n, list):
+            for x in n:
+                rec_g(x, anc)
+            return
+        if not isinstance(n, dict):
+            return
+        if n.get("k") == "Assign" and n["lhs"]["k"] == "Field" and n["lhs"]["name"] in ("byte_cap", "ptr"):
+            guarded = False
+            for node, key in reversed(anc):
+                if node["k"] == "If":
+                    c = node["cond"]
+                    neg = c["k"] == "Unary" and c.get("op") == "Not"
+                    isnull = any(x["k"] == "MethodCall" and x["name"] == "is_null" for x in walk(c))
+                    if isnull and ((neg and key == "then") or (not neg and key == "else")):
+                        guarded = True
+            commits.append((n["lhs"]["name"], guarded, n["ln"]))
+        if "k" in n:
+            for key, v in n.items():
+                if isinstance(v, (dict, list)):
+                    rec_g(v, anc + [(n, key)])
+        else:
+            for v in n.values():
+                if isinstance(v, (dict, list)):
+                    rec_g(v, anc)
+
+    rec_g(gh["body"], [])
+    if not commits:
+        raise AnchorLost("InnerHeap::grow: no assignment to byte_cap/ptr")
+    for fld, guarded, ln in commits:
+        R.ob("C33:grow:%s-committed-only-on-success" % fld, guarded,
+             "InnerHeap::grow assigns %s at line %s outside the `!new_ptr.is_null()` branch: after a failed (re)allocation the heap would believe in a capacity "
+             "it does not own, and the writes that follow the next successful guard cross the real end of the buffer" % (fld, ln), F.where(gr))
+    rets = [x for x in walk(gh["body"]) if x["k"] == "Lit" and "bool" in x["lit"]]
+    R.ob("C33:grow:reports-failure", {x["lit"]["bool"] for x in rets} == {True, False}, "grow must return false when the allocation failed (callers turn that into AllocError)", F.where(gr))
+
     # ---- push_cell: single-cell shape -----------------------------------------------------------------------
     fn = heap_fns["push_cell"]
     h = F.hir(fn)
